@@ -207,7 +207,7 @@ theorem typeLoop_cv (env : Env) (F D : Nat) (operatorOk : Bool) (ntoks : List To
     (hname : NameSpecR env F D ntoks segs) (post : List Tok) (hpost : ∀ k ∈ post, isCv k.type = true) :
     ∀ (pre : List Tok) (ct : CTok) (f : Tok) (rest : List Tok) (cst vol o : Bool) (n : Nat) (w : World) (bmid b' : Buf) (term : Tok),
     (∀ k ∈ pre, isCv k.type = true) → pre ++ ntoks ++ post = f :: rest → ct.type = f.type → ct.value = f.value →
-    Yields env.cfg w.buf rest bmid → tokenEofOk env.cfg bmid = .ok (some term, b') → declStart term.type = true →
+    Yields env.cfg w.buf rest bmid → tokenEofOk env.cfg bmid = .ok (some term, b') → typeEnd term.type = true → afterName term.type = true →
     pre.length + post.length + 3 ≤ n →
     ∃ (w' : World) (c' : CTok),
       interp env (loopN n (ct, none, cst, vol, ({} : Mods), o) (typeBody F (core F (D + 1)) operatorOk)) w =
@@ -216,7 +216,7 @@ theorem typeLoop_cv (env : Env) (F D : Nat) (operatorOk : Bool) (ntoks : List To
   intro pre
   induction pre with
   | nil =>
-    intro ct f rest cst vol o n w bmid b' term _ hsplit hty hv hy htok hterm hn
+    intro ct f rest cst vol o n w bmid b' term _ hsplit hty hv hy htok hend hafter hn
     simp only [List.nil_append] at hsplit
     obtain ⟨nrest, hnt⟩ : ∃ nrest, ntoks = f :: nrest := by
       cases hnt : ntoks with
@@ -234,7 +234,7 @@ theorem typeLoop_cv (env : Env) (F D : Nat) (operatorOk : Bool) (ntoks : List To
       | cons k ks => exact ⟨k, ks ++ [term], rfl⟩
     have hcurAfter : afterName cur.type = true := by
       cases post with
-      | nil => simp only [List.nil_append, List.cons.injEq] at hcur; rw [← hcur.1]; exact declStart_afterName hterm
+      | nil => simp only [List.nil_append, List.cons.injEq] at hcur; rw [← hcur.1]; exact hafter
       | cons k ks => simp only [List.cons_append, List.cons.injEq] at hcur; rw [← hcur.1]; exact isCv_afterName (hpost k (by simp))
     rw [hcur] at hy3
     obtain ⟨b2, hcurtok, hy4⟩ := Yields.cons_inv hy3
@@ -243,14 +243,14 @@ theorem typeLoop_cv (env : Env) (F D : Nat) (operatorOk : Bool) (ntoks : List To
     obtain ⟨m, rfl⟩ : ∃ m, n = m + 1 := ⟨n - 1, by omega⟩
     obtain ⟨w3, c3, hi3, hs3, hb3, hty3, hv3⟩ := typeLoop_afterName env F (core F (D + 1)) operatorOk (.mk segs none false) post c2 cur crest
       cst vol m w2 bmid b' term hpost hcur (by rw [hty2, hty1]) (by rw [hv2, hv1]) (by rw [hb2]; exact hy4)
-      (declStart_typeEnd hterm) (by simp at hn; omega)
+      hend (by simp at hn; omega)
     refine ⟨w3, c3, ?_, (hs1.trans hs2.butLog).trans hs3.butLog, hb3, hty3, hv3⟩
     obtain ⟨hst, hnop⟩ := hname.start f nrest hnt
     rw [loopN]
     simp only [bind, interp_bind, typeBody_name env F (core F (D + 1)) operatorOk ct cst vol o {} w (by rw [hty]; exact hst) (by rw [hty]; exact hnop),
       hi1, hi2, hi3, cvConst, cvVol, List.any_nil, Bool.or_false]
   | cons k ks ih =>
-    intro ct f rest cst vol o n w bmid b' term hpre hsplit hty hv hy htok hterm hn
+    intro ct f rest cst vol o n w bmid b' term hpre hsplit hty hv hy htok hend hafter hn
     simp only [List.cons_append, List.cons.injEq] at hsplit
     obtain ⟨hkf, hrest⟩ := hsplit
     subst hkf
@@ -269,7 +269,7 @@ theorem typeLoop_cv (env : Env) (F D : Nat) (operatorOk : Bool) (ntoks : List To
     obtain ⟨w1, c1, hi1, hb1, hs1, hty1, hv1⟩ := step_token env w g b1 hg1
     obtain ⟨m, rfl⟩ : ∃ m, n = m + 1 := ⟨n - 1, by omega⟩
     obtain ⟨w', c', hi, hs, hb, hty', hv'⟩ := ih c1 g grest (cst || ct.type == "const") (vol || ct.type == "volatile") false m w1 bmid b' term
-      (fun q hq => hpre q (by simp [hq])) hg hty1 hv1 (by rw [hb1]; exact hy1) htok hterm (by simp at hn; omega)
+      (fun q hq => hpre q (by simp [hq])) hg hty1 hv1 (by rw [hb1]; exact hy1) htok hend hafter (by simp at hn; omega)
     refine ⟨w', c', ?_, hs1.butLog.trans hs, hb, hty', hv'⟩
     rw [loopN]
     simp only [bind, interp_bind, typeBody_cv env F (core F (D + 1)) operatorOk ct none cst vol {} o w hct, hi1]
@@ -284,7 +284,7 @@ theorem typeSpecR_cv (env : Env) (F D : Nat) (pre ntoks post : List Tok) (segs :
     TypeSpecR env F D (pre ++ ntoks ++ post) segs (cvConst pre || cvConst post) (cvVol pre || cvVol post) := by
   intro operatorOk ct f rest w bmid b' term hsplit hty hv hy htok hterm
   obtain ⟨w1, c1, hi1, hs1, hb1, hty1, hv1⟩ := typeLoop_cv env F D operatorOk ntoks segs hname post hpost pre ct f rest false false false F
-    w bmid b' term hpre hsplit hty hv hy htok hterm hF
+    w bmid b' term hpre hsplit hty hv hy htok (declStart_typeEnd hterm) (declStart_afterName hterm) hF
   have hnd : isDiscard c1.type = false := by rw [hty1]; exact tokenEofOk_not_discard htok
   obtain ⟨w2, t2, hi2, hs2, ht2, hty2, hv2⟩ := step_returnToken env w1 c1 hnd
   refine ⟨w2, t2, ?_, hs1.trans hs2.butLog, by rw [← hb1]; exact ht2, by rw [hty2, hty1], by rw [hv2, hv1]⟩
